@@ -256,6 +256,27 @@ pub fn run(ctx: &mut Ctx) {
         let rd = render(&d, &sp);
         judge_one(ctx, &rd, &sp, &cfg, STEP, "ast-cr");
     }
+    // ---- B4: deep nesting in pending / skip / unregistered parents with a ready element at the
+    // bottom, and hundreds of unclosed openers in front of a ready element
+    if shard < 6 {
+        let k = [5usize, 127, 128, 129, 400, 1500][shard as usize];
+        for (pk, plevel, pskip) in [(Kind::Mk, 5u8, false), (Kind::Tl, 1, true), (Kind::Unreg, 1, false)] {
+            let mut inner = vec![text("\nkeep1();\n"), elem(Kind::Mk, if is_c04 { 5 } else { 1 }, false, false, 77, vec![text("\ngone();\n")]), text("\nkeep2();\n")];
+            for d in 0..k {
+                inner = vec![text("\n"), elem(pk.clone(), plevel, pskip, false, 1000 + d as u64, inner), text("\n")];
+            }
+            let sp = short_sp();
+            let rd = render(&inner, &sp);
+            judge_one(ctx, &rd, &sp, &cfg, STEP, "deep-pending-nest");
+            // unclosed openers in one scope, then a ready element
+            let opener = format!("{}{} name='zzz'{}", sp.ds, sp.mk, sp.de);
+            let ready = if is_c04 { "zzz" } else { "feat-a" };
+            let s = format!("{}\nkeep();\n{}{} name='{}'{}\ngone();\n{}/{}{}\nend();\n", opener.repeat(k), sp.ds, sp.mk, ready, sp.de, sp.ds, sp.mk, sp.de);
+            if let Ok(rd) = admit(&s, &sp, &cfg) {
+                judge_one(ctx, &rd, &sp, &cfg, STEP, "many-unclosed-openers");
+            }
+        }
+    }
     // ---- C: bounded-exhaustive seam and unwrap layouts
     let words = WORDS.to_vec();
     for rank in (shard..SeamParams::count()).step_by(n as usize) {
